@@ -550,6 +550,18 @@ PRETEXTS = [("# Filter: ", "# Description: "), ("# rule:", "# about:"), ("#F ", 
             ("# [rule] ", "# (about) "), ("#* ", "#+ "), ("#%s ", "#{0} "), ("#. ", "#$ "), ("#\\n ", "#\\d ")]
 
 
+LOAD_EXTRA = [
+    (("# Filter: ", "# Description: "), 'require "fileinto";\n# Filter: a\n# Filter: b\nfileinto "x";\n'),
+    (("# Filter: ", "# Description: "), 'keep;\nstop;\n'),
+    (("# Filter: ", "# Description: "), '# Description: only\nif false { stop; }\n'),
+    (("# Filter: ", "# Description: "), 'require ["copy"];\nrequire "fileinto";\n# Filter: x \n#Filter: y\nif true {\n    fileinto :copy "a";\n}\n# trailing\n'),
+    (("# Filter: ", "# Description: "), '# Filter: n\n# Description: d\n# Filter: m\nif false {\n    if true {\n        stop;\n    }\n}\nelse { keep; }\n'),
+    (("#F ", "#D "), '#F a #F b\n#D x#D \nif false {}\n'),
+    (("# rule:", "# about:"), 'require ["fileinto", "fileinto", "\\"copy\\""];\n# rule:r1\n# about:\nif anyof (true) {\n    keep;\n}\n'),
+    (("# Filter: ", "# Description: "), '# Filter: a\n/* c */ if false { stop; } # Filter: late\nstop;\n'),
+]
+
+
 def check_C11(report, tier, seed, replay=None):
     from sievelib import factory
     from sievelib.parser import Parser
@@ -643,6 +655,14 @@ def check_C11(report, tier, seed, replay=None):
         if text3 != text2:
             report.violation("rendering the reloaded set is not a fixed point:\n%s\n---\n%s" % (text2, text3), desc)
             continue
+        # the loader model (factory/Load.v over the parser model): requirements, names, descriptions, flags, text again
+        exp = "%s | %s | %s" % (",".join(hx(x.encode()) for x in fs2.requires) or "-",
+                                " ".join("%s:%s:%d" % (hx(f["name"].encode()), hx((f.get("description") or "").encode()),
+                                                        1 if f["enabled"] else 0) for f in fs2.filters) or "-",
+                                hx(text2.encode("utf-8")))
+        got = drv.ask("bload %s %s %s" % (hx(pre[0].encode()), hx(pre[1].encode()), hx(text.encode("utf-8"))))
+        if got != exp:
+            report.broke("correspondence C11 (loader model vs from_parser_result)", "model %s, implementation %s" % (got[:300], exp[:300]), desc)
         # the comment model: what the parser stored and what from_parser_result recovers
         for f, cmd in zip(fs.filters, [c for c in p.result if c.name != "require"]):
             stored = [bytes(x) for x in cmd.hash_comments]
@@ -652,6 +672,24 @@ def check_C11(report, tier, seed, replay=None):
             rec = drv.ask("recover %s %s" % (hx(pre[0].encode()), hx(want_name)))
             if rec != hx(f["name"].encode()):
                 report.broke("correspondence C11 (recover model vs from_parser_result)", "name %r model %r" % (f["name"], rec), desc)
+    # scripts the factory did not write: several marker lines, unnamed rules, require given as one string, other commands
+    for pre, text in LOAD_EXTRA:
+        p = Parser()
+        report.case(("load", text), True)
+        if not p.parse(text):
+            exp = "reject"
+        else:
+            fsx = factory.FiltersSet("t", pre[0], pre[1])
+            fsx.from_parser_result(p)
+            exp = "%s | %s | %s" % (",".join(hx(x.encode()) for x in fsx.requires) or "-",
+                                    " ".join("%s:%s:%d" % (hx(f["name"].encode()), hx((f.get("description") or "").encode()),
+                                                            1 if f["enabled"] else 0) for f in fsx.filters) or "-",
+                                    hx(F.render(fsx).encode("utf-8")))
+        got = drv.ask("bload %s %s %s" % (hx(pre[0].encode()), hx(pre[1].encode()), hx(text.encode("utf-8"))))
+        if got != exp:
+            report.broke("correspondence C11 (loader model vs from_parser_result)", "text %r: model %s, implementation %s" % (text, got[:300], exp[:300]),
+                         {"property": "C11", "text": text, "pretexts": pre})
+    build_correspondence(report, "C11", rng, drv, 150 if tier == "quick" else 4000, C19_VALUES)
     drv.close()
 
 
